@@ -180,12 +180,18 @@ def prim_only(av):
     return bool(av.t) and av.t <= {"prim"}
 
 
+PESSIMISTIC_ITEMS = [False]
+
+
 def item_of(av):
     """Abstract value of an element of `av` (iteration / subscript)."""
     t = set()
     for tag in av.t:
         if tag == "cont":
-            t |= av.i  # no recorded item: nothing was ever put in (closed world)
+            # no recorded item: optimistic warm-up phases assume nothing was put
+            # in yet; the final (pessimistic) phases assume anything may be inside
+            # (a callee may have filled the container)
+            t |= av.i if (av.i or not PESSIMISTIC_ITEMS[0]) else {"?"}
         elif tag == "lxml":
             t.add("lxml")
         elif tag in ("prim", "attrib"):
@@ -444,6 +450,20 @@ def _relevant_params(node, params):
                 if isinstance(k.value, ast.Name) and k.value.id in params:
                     rel.add(k.value.id)
     return rel
+
+
+def _ann_not_string(node):
+    """True if the annotation only names non-string primitive types."""
+    if node is None:
+        return False
+    for n in ast.walk(node):
+        if isinstance(n, ast.Name) and (n.id not in PRIM_ANN or n.id in ("str", "bytes")):
+            return False
+        if isinstance(n, ast.Constant) and n.value is not None:
+            return False
+        if isinstance(n, (ast.Subscript, ast.Attribute)):
+            return False
+    return True
 
 
 def mangle(name, clsname):
@@ -880,7 +900,23 @@ class FA:
         out = self.block(fi.body, env)
         if out is not None:
             self.rets.append((PRIM if fi.kind != "module" else BOT, out))
-        self.sum.ret = joinall(r for r, _ in self.rets)
+        ret = joinall(r for r, _ in self.rets)
+        if fi.kind != "module" and getattr(fi.node, "returns", None) is not None and not ret.is_bot():
+            # a return annotation naming plain data (str, int, tuple[int, ...]) is
+            # trusted for the *type* of the result; its origins are kept (smart strings)
+            rt, ri = self.ann_types(fi.node.returns)
+            if rt and rt <= {"prim", "cont"} and ("cont" not in rt or (ri and ri <= {"prim"})):
+                ret = AV(ret.o, rt, ri, ret.c)
+            else:
+                # annotations naming code-base classes are upper bounds: narrow
+                def ok(tags):
+                    return tags and all(x in ("prim", "cont") or x.startswith("inst:") for x in tags)
+                if ok(rt) and (ret.t - {"prim"}):
+                    ret = AV(ret.o, self.narrow(ret, set(rt)).t, ret.i, ret.c)
+                if "cont" in rt and ok(ri) and "cont" in ret.t and ret.i:
+                    ni = self.narrow(AV(EMPTY, ret.i, EMPTY, ""), set(ri)).t
+                    ret = AV(ret.o, ret.t, ni, ret.c)
+        self.sum.ret = ret
         if fi.kind == "module":
             final = None
             for _, e in self.rets:
@@ -905,6 +941,10 @@ class FA:
             extra = self.an.param_av(fi.q, p, self.key)
             return AV({origin}, {"cont"}, extra.t | extra.i, "NN")
         t, i = self.ann_types(fi.ann.get(p))
+        if t == {"prim"} and _ann_not_string(fi.ann.get(p)):
+            # int / bool / float / None / Decimal / datetime ...: not even an lxml
+            # "smart string", no tree is reachable from such a value
+            return AV(EMPTY, t, EMPTY, "")
         extra = self.an.param_av(fi.q, p, self.key)
         if "?" in t and self.an.is_private(fi):
             # closed world: a private function is only called from the code base,
@@ -913,6 +953,8 @@ class FA:
         elif "?" in t or "callable" in t:
             t = t | {x for x in extra.t if x.startswith(("func:", "class:", "class*:", "bound:"))}
         if "cont" in t:
+            if "?" in i and self.an.is_private(fi):
+                i = i - {"?"}
             i = i | extra.i
             if not i and self.an.pess:
                 i = FS({"?"})  # nothing known about the content of this container
@@ -1951,6 +1993,8 @@ class FA:
     def store_attr(self, node, base, v, env, how):
         attr = mangle(node.attr, self.cname())
         line = node
+        if (self.fi.q, attr + "=") in self.an.assume_pure:
+            return  # what-if run: this assignment is assumed removed (known finding)
         for tag in base.t:
             if tag == "lxml":
                 self.write(base, line, f"{how} .{attr} of an lxml node")
@@ -2094,7 +2138,8 @@ class FA:
         params = list(fi.pos)
         bound, bexpr = {}, {}
         idx = 0
-        if fi.kind in ("method", "class") and recv is not None and params:
+        if fi.kind in ("method", "class", "nested") and recv is not None and params:
+            # "nested" with a receiver: the PropDef-generated property closures
             bound[params[0]] = recv
             idx = 1
         for a, ex in zip(call.args, call.arg_exprs):
@@ -2455,8 +2500,9 @@ class FA:
             return PRIM
         if name == "type":
             if len(args) == 1:
+                # a class object: harmless unless it is instantiated
                 t = {"class*:" + x[5:] for x in a0.t if x.startswith("inst:")}
-                return AV(t=t or {"?"}, c="NN")
+                return AV(t=t or {"std"}, c="NN")
             return UNK
         if name == "super":
             return UNK
@@ -2971,6 +3017,7 @@ class Analysis:
 
     def run(self):
         t0 = time.time()
+        PESSIMISTIC_ITEMS[0] = False
         for q in self.P.funcs:
             fi = self.P.funcs[q]
             if fi.kind == "module":
@@ -3003,6 +3050,7 @@ class Analysis:
                 # tables stable under the optimistic defaults: switch to the
                 # pessimistic ones (what is still unknown now is really unknown)
                 self.pess = True
+                PESSIMISTIC_ITEMS[0] = True
         # generic summaries of the remaining (internal) functions, for the record:
         # computed against the final tables, which they do not feed
         self.frozen = True
@@ -3081,11 +3129,34 @@ class Analysis:
                 row["default_spec"] = self.fmt_key(dk)
                 if dv != v:
                     row["chain_with_default_arguments"] = dchain
+            mod = getattr(self, "modulo", None)
+            if mod is not None and v != "pure" and e in mod.entry_keys:
+                mv, mchain = mod.verdict_of_key(mod.entry_keys[e])
+                row["verdict_modulo_known_finding"] = mv
+                if mv != "pure":
+                    row["chain_modulo_known_finding"] = mchain
+                else:
+                    m2 = getattr(self, "modulo_f2", None)
+                    only_f2 = m2 is not None and m2.verdict_of_key(m2.entry_keys[e])[0] == "pure"
+                    row["depends_on_known_findings"] = (
+                        ["F2:meta-wrap"] if only_f2 else ["F1:markdown-optimize_width", "F2:meta-wrap"])
+                mdk = mod.entry_default_keys.get(e)
+                if mdk is not None:
+                    row["verdict_modulo_known_finding_default_arguments"] = mod.verdict_of_key(mdk)[0]
             s = self.sums[key]
             if s.gwrites:
                 row["python_global_state_written"] = sorted(s.gwrites)
                 row["global_state_restored_in_finally"] = not s.gw_unrestored
             rows.append(row)
+        mcounts = None
+        if getattr(self, "modulo", None) is not None:
+            mcounts = {"pure": 0, "may-mutate": 0, "unknown": 0, "only_via_F2": 0, "via_F1": 0}
+            for row in rows:
+                mv = row.get("verdict_modulo_known_finding", row["verdict"])
+                mcounts[mv] += 1
+                dep = row.get("depends_on_known_findings")
+                if dep:
+                    mcounts["only_via_F2" if len(dep) == 1 else "via_F1"] += 1
         return {
             "src_root": self.src_root,
             "strict_tostring": self.strict_tostring,
@@ -3098,12 +3169,40 @@ class Analysis:
             "analysis_errors": [(self.fmt_key(k), e) for k, e, _ in self.errors],
             "entry_points": len(self.entry_points),
             "counts": counts,
+            "counts_modulo_known_findings": mcounts,
+            "known_findings_assumed_removed": [list(k) for k in KNOWN_FINDINGS] if mcounts else None,
             "entries": rows,
         }
 
 
-def analyze(src_root=None, strict_tostring=False, verbose=False):
-    return Analysis(src_root, strict_tostring, verbose).run()
+KNOWN_FINDINGS = [
+    # C15 finding 1: the Markdown export of a table shrinks the LIVE table
+    # (reached by to_markdown, and by str()/search()/match() of anything that
+    # contains a list item, because ListItem.__str__ uses the Markdown export)
+    ("mixin_md:MDTable._md_format", "optimize_width"),
+    # C15 finding 2: wrapping an EXISTING <meta:auto-reload> / <meta:template> node
+    # (Element.from_tag, any get_element*) overwrites its xlink attributes: the
+    # assignments sit outside the `if self._do_init:` guard
+    ("meta_auto_reload:MetaAutoReload.__init__", "actuate="),
+    ("meta_auto_reload:MetaAutoReload.__init__", "show="),
+    ("meta_auto_reload:MetaAutoReload.__init__", "type="),
+    ("meta_template:MetaTemplate.__init__", "actuate="),
+    ("meta_template:MetaTemplate.__init__", "type="),
+]
+
+
+def analyze(src_root=None, strict_tostring=False, verbose=False, assume_pure=None, modulo_known=True):
+    """Run the effect inference.  With modulo_known, a second what-if run in which
+    the calls listed in KNOWN_FINDINGS are assumed removed is attached as
+    `.modulo`: it tells the entry points that are may-mutate ONLY through the known
+    finding from the ones that have another reason."""
+    an = Analysis(src_root, strict_tostring, verbose, assume_pure).run()
+    an.modulo = an.modulo_f2 = None
+    if modulo_known and not assume_pure:
+        an.modulo = Analysis(src_root, strict_tostring, verbose, KNOWN_FINDINGS).run()
+        f2 = [k for k in KNOWN_FINDINGS if k[0].startswith("meta_")]
+        an.modulo_f2 = Analysis(src_root, strict_tostring, verbose, f2).run()
+    return an
 
 
 def short_chain(chain):
@@ -3122,18 +3221,29 @@ def main(argv=None):
     ap.add_argument("--entry", help="only print entry points containing this substring")
     ap.add_argument("--src-root", help="source root (default $PYVC_REPO/src/odfdo or /repo/src/odfdo)")
     ap.add_argument("--strict-tostring", action="store_true", help="treat etree.tostring as a potential writer")
+    ap.add_argument("--assume-removed", action="append", default=[], metavar="FUNC:CALL",
+                    help="what-if: treat the call .CALL() inside FUNC as removed")
+    ap.add_argument("--no-modulo", action="store_true", help="skip the what-if run for the known finding")
     ap.add_argument("--summary", help="print the summary of the functions whose name contains this substring")
     args = ap.parse_args(argv)
-    an = analyze(args.src_root, args.strict_tostring)
+    assume = [tuple(x.rsplit(":", 1)) for x in args.assume_removed] or None
+    an = analyze(args.src_root, args.strict_tostring, assume_pure=assume, modulo_known=not args.no_modulo)
     rep = an.report()
     for row in rep["entries"]:
         if args.entry and args.entry not in row["entry"]:
             continue
         line = f"{row['verdict'].upper():<10} {row['entry']}"
+        mv = row.get("verdict_modulo_known_finding")
+        if mv == "pure":
+            line += "  (only via known finding " + "+".join(
+                x.split(":")[0] for x in row.get("depends_on_known_findings", [])) + ")"
         if row["chain"]:
             line += "  <- " + short_chain(row["chain"])
-        dv = row.get("verdict_with_default_arguments")
-        if dv and dv != row["verdict"]:
+        if mv and mv != "pure":
+            line += "   || other reason: " + short_chain(row["chain_modulo_known_finding"])
+        dv = row.get("verdict_modulo_known_finding_default_arguments") if mv and mv != "pure" else \
+            row.get("verdict_with_default_arguments")
+        if dv and dv != (mv if mv and mv != "pure" else row["verdict"]):
             line += f"   (with default arguments: {dv.upper()})"
         print(line)
     if args.summary:
@@ -3147,6 +3257,12 @@ def main(argv=None):
           f"unknown: {c['unknown']}   ({rep['functions']} functions, {rep['summaries_computed']} summaries, "
           f"{rep['function_analyses_run']} analyses, {rep['elapsed_s']} s, {len(rep['analysis_errors'])} analysis errors)",
           file=sys.stderr if False else sys.stdout)
+    m = rep.get("counts_modulo_known_findings")
+    if m:
+        print(f"# modulo the known findings (what-if run, {len(KNOWN_FINDINGS)} statements assumed removed): "
+              f"pure: {m['pure']}  may-mutate: {m['may-mutate']}  unknown: {m['unknown']}   "
+              f"[of the {m['pure'] - c['pure']} conditional ones: {m['only_via_F2']} depend only on F2 (meta wrap), "
+              f"{m['via_F1']} also on F1 (markdown optimize_width)]")
     for k, e in rep["analysis_errors"][:10]:
         print(f"# ANALYSIS ERROR in {k}: {e}")
     if args.json:
